@@ -81,6 +81,33 @@ def fam_reports(tier, seed):
             b.task("A", "F", dur=1)
             b.task("B", "V", min=0, max=2, optional=True)
         ps.append(b.done())
+    # no user horizon + a buffer whose last change comes before the reported horizon (the curve runs up to that horizon)
+    b = PB(5, user_horizon=False, tag="report-free-horizon-buffer")
+    a = b.task("A", "F", dur=2)
+    c = b.task("B", "F", dur=1)
+    bf = b.buffer("Bf", initial=2, lower=0)
+    b.unload(a, bf, 1)
+    b.load(c, bf, 2)
+    b.con("TaskPrecedence", before=c, after=a, offset=0, kind="lax")
+    ps.append(dict(b.done(), keep=True))
+    # two zero-length tasks of one worker at the same instant: both are reported, both are drawn
+    b = PB(3, tag="report-two-markers")
+    a = b.task("A", "Z")
+    c = b.task("B", "Z")
+    d = b.task("C", "F", dur=1)
+    w = b.worker("W")
+    for t in (a, c, d):
+        b.require(t, worker=w)
+    b.con("TasksStartSynced", t1=a, t2=c)
+    ps.append(dict(b.done(), keep=True))
+    # two tasks in either order (a disjunction of precedences), every returned schedule ends within the reported horizon
+    from problems import o_con
+    b = PB(5, tag="report-either-order")
+    a = b.task("A", "F", dur=2)
+    c = b.task("B", "F", dur=2)
+    b.con("Or", xs=[o_con(b.con("TaskPrecedence", before=a, after=c, offset=0, kind="lax")),
+                    o_con(b.con("TaskPrecedence", before=c, after=a, offset=0, kind="lax"))])
+    ps.append(dict(b.done(), keep=True))
     if not full:
-        ps = sample(rng, ps, 18)
+        ps = sample(rng, ps, 21)
     return number(ps)
